@@ -28,6 +28,12 @@ RULE = ("exhaustive: every profile over alternatives {1..m}, m <= 3, made of 1 o
         "the instance (multiplicity, orders, num_voters, num_unique_orders, num_alternatives, alternatives_name, "
         "data_type) must equal a copy taken before the first call; planted: a ballot together with its exact reverse "
         "(strict and weak, equal and different multiplicities), profiles closed under reversal. "
+        "Storage variants on the fresh-object cases and the histories (every function, order_to_pwg included): "
+        "instance.orders reversed / sorted / shuffled in place, the multiplicity dict rebuilt in reverse or shuffled key "
+        "order or its first key popped and re-inserted, alternatives_name not in ascending id order. c07.seq: a larger "
+        "instance A, then a smaller instance B with overlapping ids, then A again inside one call; the objects "
+        "returned for A are read again after the calls on B, the objects returned for B are emptied before B is asked "
+        "again. "
         "non-trivial = >= 2 alternatives, >= 2 distinct ballots, some multiplicity > 1")
 EXHAUSTIVE = {"quick": "all profiles with 1-2 distinct (possibly tied, possibly incomplete) ballots over m<=3 alternatives, multiplicities<=2",
               "thorough": "same with multiplicities<=3 for m<=3, plus all 1-2 ballot profiles of complete weak orders over m=4"}
@@ -97,12 +103,57 @@ def generate(tier, seed):
     count = [0]
 
     def add(pl, seq=None, **tags):
-        """the instance with a fresh object per function (c07.all) and as a history on one object (c07.history)"""
-        out.append(case("c07.all", pl, **tags))
+        """the instance with a fresh object per function (c07.all) and as a history on one object (c07.history), each
+        with some storage variant (instance.orders / multiplicity keys decoupled)"""
+        k = count[0]
+        count[0] += 1
+        if tags.get("exh") and len(pl[0]) == 3 and k % 3:
+            # alternatives_name not in ascending id order (registered in discovery order)
+            an = pl[0]
+            pl = [[an[2], an[0], an[1]] if k % 3 == 1 else [an[1], an[2], an[0]]] + list(pl[1:])
+        nb = len(pl[3])
+        st1 = STORES[k % len(STORES)] if nb >= 2 else ""
+        st2 = STORES[(k + 3) % len(STORES)] if nb >= 2 else ""
+        if tags.get("guard"):
+            st1 = st2 = ""
+        out.append(case("c07.all", pl, store=st1, **tags))
         if seq is None:
-            seq = HISTORIES[count[0] % len(HISTORIES)]
-            count[0] += 1
-        out.append(case("c07.history", [pl, seq], **tags))
+            seq = HISTORIES[k % len(HISTORIES)]
+        out.append(case("c07.history", [pl, seq], store=st2, **tags))
+
+    def smaller(pl, drop):
+        """the instance restricted to the alternatives not in drop (overlapping ids, different content)"""
+        an, na, nv, mult, dt = pl
+        new = []
+        for o, k in mult:
+            o2 = [cl2 for cl2 in ([x for x in cl if x not in drop] for cl in o) if cl2]
+            if not o2:
+                continue
+            for e in new:
+                if e[0] == o2:
+                    e[1] += k
+                    break
+            else:
+                new.append([o2, k])
+        an2 = [e for e in an if e[0] not in drop]
+        if len(an2) < 2 or not new:
+            return None
+        prof = [(o, k) for o, k in new]
+        return [an2, len(an2), sum(k for _, k in prof), [[o, k] for o, k in prof],
+                infer_dt([a for a, _ in an2], prof) if dt < 4 else dt]
+
+    def add_seq(pl, **tags):
+        """A (larger) first, then B (A without one or two alternatives) in the same worker call, then A again"""
+        ids = [a for a, _ in pl[0]]
+        if len(ids) < 3:
+            return
+        k = count[0]
+        drop = [ids[k % len(ids)]] + ([ids[(k + 2) % len(ids)]] if len(ids) > 3 and k % 2 else [])
+        pb = smaller(pl, set(drop))
+        if pb is not None:
+            tags = dict(tags)
+            tags.pop("parse", None)
+            out.append(case("c07.seq", [pl, pb], store=STORES[k % len(STORES)] if len(pl[3]) >= 2 else "", **tags))
 
     # ---- exhaustive
     kmax = 2 if tier == "quick" else 3
@@ -116,6 +167,8 @@ def generate(tier, seed):
             for k1 in range(1, kmax + 1):
                 for k2 in range(1, kmax + 1):
                     add(payload(alts, [(o1, k1), (o2, k2)]), m=m, exh=1)
+            if m == 3:
+                add_seq(payload(alts, [(o1, 1), (o2, 2)]), m=m, exh=1)
     # the same range over the ids {0,1,2} (0 is falsy in Python), multiplicity 1
     alts = [0, 1, 2]
     bal = list(all_ballots(alts))
@@ -140,6 +193,8 @@ def generate(tier, seed):
             seq = [0, 1, 2, 3, 4, 5] * 2
             rng.shuffle(seq)
         add(c["payload"], seq, **c["tags"])
+        if idx % 3 == 0 and not c["tags"].get("guard"):
+            add_seq(c["payload"], **c["tags"])
     return out
 
 
@@ -310,6 +365,40 @@ def build_via_parser(pl):
     return inst
 
 
+STORES = ["", "orders_reversed", "mult_rebuilt_reversed", "orders_sorted", "mult_pop_reinsert", "orders_shuffled",
+          "mult_rebuilt_shuffled"]
+
+
+def decouple(inst, store):
+    """same instance, other storage order: instance.orders and the keys of instance.multiplicity no longer run in
+    parallel (what .sort()/.reverse(), a rebuilt dict or a popped and re-inserted key leave behind)"""
+    if not store:
+        return inst
+    rs = random.Random(len(inst.orders) * 7919 + len(store))
+    if store == "orders_reversed":
+        inst.orders.reverse()
+    elif store == "orders_sorted":
+        inst.orders.sort()
+    elif store == "orders_shuffled":
+        rs.shuffle(inst.orders)
+    elif store in ("mult_rebuilt_reversed", "mult_rebuilt_shuffled"):
+        items = list(inst.multiplicity.items())
+        if store.endswith("reversed"):
+            items.reverse()
+        else:
+            rs.shuffle(items)
+        inst.multiplicity.clear()
+        inst.multiplicity.update(items)
+    elif store == "mult_pop_reinsert" and inst.multiplicity:
+        k = next(iter(inst.multiplicity))
+        inst.multiplicity[k] = inst.multiplicity.pop(k)
+    return inst
+
+
+def make(pl, tags):
+    return decouple((build_via_parser if tags.get("parse") else build)(pl), tags.get("store", ""))
+
+
 def _num(v, what):
     """exact integer value of a table entry: ints as they are; a float only if it is integral (converted exactly, so
     a float that lost low-order bits compares unequal to the model's integer); anything else is not a count"""
@@ -371,7 +460,7 @@ def _snap_diff(before, after):
     return common.snap_diff(before, after)
 
 
-def _history(pl, seq, via_parser):
+def _history(pl, seq, tags):
     """all calls of seq on ONE instance object; the instance is compared with a copy taken before after every call"""
     from preflibtools.properties import pairwisecomparisons as P
     from preflibtools.instances.convert import order_to_pwg
@@ -383,7 +472,7 @@ def _history(pl, seq, via_parser):
            (lambda i: guarded(P.has_condorcet, i, weak_condorcet=True), bl),
            (lambda i: guarded(P.borda_scores, i), _borda),
            (lambda i: guarded(order_to_pwg, i), lambda s: _parse_pwg(s, m))]
-    inst = (build_via_parser if via_parser else build)(pl)
+    inst = make(pl, tags)
     before = _snapshot(inst)
     results, mutated = [], None
     for pos, code in enumerate(seq):
@@ -396,18 +485,58 @@ def _history(pl, seq, via_parser):
     return {"results": results, "mutated": mutated}
 
 
+def _sequence(pa, pb, tags):
+    """two different instances with overlapping ids inside ONE call: the larger A first, then the smaller B, then A
+    again; results kept from the first round are re-read after the later calls; the objects returned for B are
+    emptied in place before B is asked again (a result must not be shared with later calls or with the module)"""
+    from preflibtools.properties import pairwisecomparisons as P
+    from preflibtools.instances.convert import order_to_pwg
+    bl = lambda v: 1 if v is True else (0 if v is False else {"bad": repr(v)})
+
+    def ask(inst, m):
+        raw = [guarded(P.pairwise_scores, inst), guarded(P.copeland_scores, inst), guarded(P.has_condorcet, inst),
+               guarded(P.has_condorcet, inst, weak_condorcet=True), guarded(P.borda_scores, inst),
+               guarded(order_to_pwg, inst)]
+        return raw
+
+    def canon(raw, m):
+        cs = [_table, _table, bl, bl, _borda, lambda s: _parse_pwg(s, m)]
+        return [_wrap(list(r), f) for r, f in zip(raw, cs)]
+
+    a, b = make(pa, tags), make(pb, tags)
+    ma, mb = len(pa[0]), len(pb[0])
+    raw_a = ask(a, ma)
+    first_a = canon(raw_a, ma)
+    raw_b = ask(b, mb)
+    first_b = canon(raw_b, mb)
+    kept_a = canon(raw_a, ma)                  # the objects returned for A, read again after the calls on B
+    for r in raw_b:                            # poison what was returned for B
+        if r[0] == 0 and isinstance(r[1], dict):
+            for row in list(r[1].values()):
+                if isinstance(row, dict):
+                    row.clear()
+            r[1].clear()
+    second_b = canon(ask(b, mb), mb)
+    second_a = canon(ask(a, ma), ma)
+    kept_a2 = canon(raw_a, ma)
+    return {"first_a": first_a, "first_b": first_b, "kept_a": kept_a, "second_b": second_b, "second_a": second_a,
+            "kept_a2": kept_a2}
+
+
 def impl(c):
     from preflibtools.properties import pairwisecomparisons as P
     from preflibtools.instances.convert import order_to_pwg
     op, pl = c["op"], c["payload"]
     if op == "c07.history":
-        return _history(pl[0], pl[1], c["tags"].get("parse"))
+        return _history(pl[0], pl[1], c["tags"])
+    if op == "c07.seq":
+        return _sequence(pl[0], pl[1], c["tags"])
     if op == "c07.condorcet":
         inst = build(pl[0])
         return _wrap(guarded(P.has_condorcet, inst, weak_condorcet=bool(pl[1])), lambda v: 1 if v is True else (0 if v is False else {"bad": repr(v)}))
     m = len(pl[0])
     res = {}
-    mk = build_via_parser if c["tags"].get("parse") else build
+    mk = lambda q: make(q, c["tags"])
     res["pairwise"] = _wrap(guarded(P.pairwise_scores, mk(pl)), _table)
     res["copeland"] = _wrap(guarded(P.copeland_scores, mk(pl)), _table)
     bl = lambda v: 1 if v is True else (0 if v is False else {"bad": repr(v)})
@@ -474,12 +603,28 @@ def _cmp(key, alts, r, m):
 def oracle_requests(c, r):
     if c["op"] == "c07.history":          # the model of the ORIGINAL profile judges every call of the history
         return [("c07.all", c["payload"][0])]
+    if c["op"] == "c07.seq":
+        return [("c07.all", c["payload"][0]), ("c07.all", c["payload"][1])]
     return [(c["op"], c["payload"])]
 
 
 def judge(c, r, mres):
     m = mres[0]
     op = c["op"]
+    if op == "c07.seq":
+        pa, pb = c["payload"]
+        for stage, pl, mm, what in (("first_a", pa, mres[0], "first instance (A)"),
+                                    ("first_b", pb, mres[1], "second instance (B) asked after A"),
+                                    ("kept_a", pa, mres[0], "results returned for A, read again after the calls on B"),
+                                    ("second_b", pb, mres[1], "B asked again after the objects returned for B were emptied"),
+                                    ("second_a", pa, mres[0], "A asked again after B"),
+                                    ("kept_a2", pa, mres[0], "results returned for A by the first round, read at the end")):
+            alts = [a for a, _ in pl[0]]
+            for k, res, mk in zip(KEYS, r[stage], mm):
+                why = _cmp(k, alts, res, mk)
+                if why:
+                    return {"kind": "mismatch", "theorem": THEOREM[k], "reason": "%s: %s" % (what, why)}
+        return None
     if op == "c07.history":
         pl, seq = c["payload"]
         alts = [a for a, _ in pl[0]]
@@ -514,7 +659,7 @@ def judge(c, r, mres):
 
 
 def _inst_pl(c):
-    return c["payload"][0] if c["op"] in ("c07.condorcet", "c07.history") else c["payload"]
+    return c["payload"][0] if c["op"] in ("c07.condorcet", "c07.history", "c07.seq") else c["payload"]
 
 
 def nontrivial(c, r, m):
@@ -545,6 +690,14 @@ def stats(c, r, m):
         out.append("multiplicity > 2**53" if mx < 2 ** 63 else "multiplicity >= 2**63")
     if c["tags"].get("pattern") == "knife" and len(mult) == 2 and mult[0][1] > 2 ** 53:
         out.append("knife-edge margin %+d beyond 2**53" % (mult[0][1] - mult[1][1]))
+    if c["tags"].get("store") and len(mult) >= 2:
+        out.append("storage decoupled: " + c["tags"]["store"])
+        if len({k for _, k in mult}) > 1:
+            out.append("storage decoupled and multiplicities differ")
+    if alts != sorted(alts):
+        out.append("alternatives_name not in ascending id order")
+    if c["op"] == "c07.seq":
+        out.append("two instances with overlapping ids in one call (A, B, A again; kept results re-read; B's results emptied)")
     if c["op"] == "c07.history":
         out.append("history on one instance object, first call %s" % KEYS[c["payload"][1][0]])
     elif c["op"] == "c07.all":
@@ -592,12 +745,19 @@ def describe(c):
         d["weak_condorcet"] = bool(c["payload"][1])
     if c["op"] == "c07.history":
         d["calls on one instance object, in this order"] = [KEYS[x] for x in c["payload"][1]]
+    if c["op"] == "c07.seq":
+        an2, na2, nv2, mult2, dt2 = c["payload"][1]
+        d["second instance (B), asked after the first one in the same process"] = {
+            "alternatives_name": {a: proto.untext(nm) for a, nm in an2}, "multiplicity": [[o, k] for o, k in mult2],
+            "data_type": DT[min(dt2, 6)]}
+    if c["tags"].get("store"):
+        d["storage"] = c["tags"]["store"] + " (instance.orders and the keys of instance.multiplicity decoupled after building)"
     return d
 
 
 def _rebuild(c, an, mult, dt):
     pl = [an, len(an), sum(k for _, k in mult), mult, dt]
-    if c["op"] in ("c07.condorcet", "c07.history"):
+    if c["op"] in ("c07.condorcet", "c07.history", "c07.seq"):
         return dict(c, payload=[pl, c["payload"][1]])
     return dict(c, payload=pl)
 
